@@ -388,6 +388,290 @@ def from_cmat(m):
 
 
 # =====================================================================================================
+# Operations -> Gallina terms, and the generic validation of a returned operation list
+# =====================================================================================================
+class Conv:
+    """Cirq operation -> `gop` term of the float instance. Library gates go through the shared vocabulary (their matrix is
+    computed inside Coq from the parameters); anything else enters through cirq.unitary (counted)."""
+
+    def __init__(self, cirq, mods):
+        self.cirq, self.mods = cirq, mods
+        import collections
+        self.via_unitary = collections.Counter()
+        c = cirq
+        self.eig = [(c.CZPowGate, 'CZPow'), (c.CXPowGate, 'CXPow'), (c.ISwapPowGate, 'ISwapPow'), (c.SwapPowGate, 'SwapPow'), (c.XXPowGate, 'XXPow'),
+                    (c.YYPowGate, 'YYPow'), (c.ZZPowGate, 'ZZPow'), (c.HPowGate, 'HPow'), (c.CCXPowGate, 'CCXPow'), (c.CCZPowGate, 'CCZPow'),
+                    (c.XPowGate, 'XPow'), (c.YPowGate, 'YPow'), (c.ZPowGate, 'ZPow')]
+
+    def gate(self, g):
+        c = self.cirq
+        for t, fam in self.eig:
+            if isinstance(g, t):
+                if getattr(g, 'dimension', 2) != 2:
+                    return None
+                shape = gates.EIG_SHAPE.get(fam, (2, 2))
+                return gates.G(fam, dict(e=float(g.exponent), s=float(g.global_shift)), shape)
+        if isinstance(g, c.FSimGate):
+            return gates.G('FSim', dict(theta=float(g.theta), phi=float(g.phi)), (2, 2))
+        if isinstance(g, c.PhasedXPowGate):
+            return gates.G('PhasedX', dict(p=float(g.phase_exponent), e=float(g.exponent), s=float(g.global_shift)), (2,))
+        if isinstance(g, c.PhasedXZGate):
+            return gates.G('PhasedXZ', dict(x=float(g.x_exponent), z=float(g.z_exponent), a=float(g.axis_phase_exponent)), (2,))
+        if isinstance(g, self.mods['cirq_google'].SycamoreGate):
+            return gates.G('Sycamore', {}, (2, 2))
+        if isinstance(g, c.GlobalPhaseGate):
+            z = complex(g.coefficient)
+            if abs(abs(z) - 1) > 1e-9:
+                return None
+            return gates.G('GlobalPhase', dict(rads=cmath.phase(z)), ())
+        if isinstance(g, c.MatrixGate):
+            return gates.G('Matrix', dict(m=np.asarray(c.unitary(g), dtype=complex)), c.qid_shape(g))
+        if isinstance(g, c.IdentityGate):
+            return gates.G('Identity', {}, c.qid_shape(g))
+        return None
+
+    def ops(self, ops, qubits):
+        """-> Gallina list of gop, or raises ValueError when an operation is not a unitary on the given qubits."""
+        c = self.cirq
+        idx = {q: i for i, q in enumerate(qubits)}
+        items = []
+        for op in ops:
+            if any(q not in idx for q in op.qubits):
+                raise ValueError(f'operation {op!r} acts outside the given qubits')
+            rec = self.gate(op.gate) if op.gate is not None else None
+            if rec is None:
+                if not c.has_unitary(op):
+                    raise ValueError(f'operation {op!r} has no unitary')
+                self.via_unitary[type(op.gate).__name__] += 1
+                rec = gates.G('Matrix', dict(m=np.asarray(c.unitary(op), dtype=complex)), c.qid_shape(op))
+            items.append(f'({rec.coq()}, {gates.nlist([idx[q] for q in op.qubits])})')
+        return '[' + ';\n '.join(items) + ']'
+
+
+def opdescs(ops, native):
+    return '[' + '; '.join(f'mkOp {len(op.qubits)} {"true" if native(op) else "false"}' for op in ops) + ']'
+
+
+def numpy_unitary(cirq, ops, qubits):
+    return cirq.Circuit(ops).unitary(qubit_order=qubits, qubits_that_should_be_present=qubits)
+
+
+def residual(a, b, phase):
+    """diagnostic only (the deciding comparison is made in Coq)"""
+    a, b = np.asarray(a), np.asarray(b)
+    if a.shape != b.shape:
+        return float('inf')
+    if phase:
+        i = int(np.argmax(np.abs(b)))
+        if abs(b.flat[i]) > 1e-30:
+            b = b * (a.flat[i] / b.flat[i])
+    return float(np.max(np.abs(a - b)))
+
+
+def add_ops_checks(ctx, conv, checks, routine, opts, name, u, ops, qubits, tol, phase, count=None, nontrivial=True, extra=None):
+    """count: (bound, exact: bool, native predicate, text) or None.  Appends the Coq comparisons for one returned op list."""
+    cirq = conv.cirq
+    ops = list(cirq.flatten_to_ops(ops))
+    rep = dict(kind='synth', routine=routine, opts=opts, input_class=name, matrix=cmat(u))
+    if extra:
+        rep.update(extra)
+    okey = ','.join(f'{k}={v}' for k, v in sorted(opts.items()))
+    stream = routine + (f'[{okey}]' if okey else '')
+    try:
+        term = conv.ops(ops, qubits)
+    except Exception as e:
+        ctx.violation(f'{routine}:form:{name}', f'{stream} on {name}: {e}', rep)
+        return
+    n = len(qubits)
+    ctx.count(stream, [name, rep['matrix']], nontrivial, sample=dict(input_class=name, operations=[str(o) for o in ops][:12], n_ops=len(ops)))
+    cmpf = 'reconstructs_phase_f' if phase else 'reconstructs_f'
+    try:
+        res = residual(numpy_unitary(cirq, ops, qubits), u, phase)
+    except Exception:
+        res = None
+    what = (f'{stream} on {name}: the product of the returned operations differs from the input'
+            f'{" (up to global phase)" if phase else ""} by more than the documented tolerance {tol:g} (numpy estimate of the residual: {res})')
+    checks.append((stream, f'{cmpf} {fl(tol)} {gates.nlist([2] * n)} {term} {gates.fmat(u)}', what,
+                   dict(rep, signature=f'{routine}:reconstruct:{name}', loose=f'{cmpf} {fl(10 * tol)} {gates.nlist([2] * n)} {term} {gates.fmat(u)}',
+                        loose_signature=f'{routine}:reconstruct:within-10x-tolerance')))
+    if count is not None:
+        bound, exact, native, text = count
+        n2 = sum(1 for o in ops if len(o.qubits) >= 2)
+        checks.append((stream + ':count', f'{"exact_count" if exact else "within_count"} {opdescs(ops, native)} {bound}',
+                       f'{stream} on {name}: {text}; got {n2} operations on >= 2 qubits: {[str(o) for o in ops if len(o.qubits) >= 2]}',
+                       dict(rep, signature=f'{routine}:count:{name}')))
+        ctx.count(stream + ':count', [name, rep['matrix']], nontrivial)
+
+
+# =====================================================================================================
+# Stream 3: two-qubit synthesis routines
+# =====================================================================================================
+ROUTINES.update({
+    'two_qubit_matrix_to_cz_operations': 'docstring: "operations implementing the matrix" (an operation list carries no global phase: compared up to phase); atol = "a limit on the amount of absolute error introduced by the construction" -> residual <= atol (max over entries, real and imaginary parts); at most 3 two-qubit gates, all CZPowGate, exponent 1 unless allow_partial_czs; ValueError documented when allow_partial_czs=False "and the matrix requires partial CZs".',
+    'two_qubit_matrix_to_diagonal_and_cz_operations': 'docstring: V = Circuit(ops) @ D with D diagonal; residual <= atol up to phase (built on the previous routine); <= 3 CZ.',
+    'two_qubit_matrix_to_sqrt_iswap_operations': 'docstring: at most three SQRT_ISWAP (SQRT_ISWAP_INV with use_sqrt_iswap_inv) + single-qubit gates; exactly required_sqrt_iswap_count when given, ValueError only if the matrix needs more; fewest possible otherwise (0 iff locally identity, 1 iff locally sqrt-iSWAP, 2 iff x >= y+|z|: checked where the corpus point is >= 1e-6 inside a region); residual <= atol up to phase.',
+    'decompose_two_qubit_interaction_into_four_fsim_gates': 'docstring: exactly four of the given FSim gate, single-qubit operations and a global phase operation: compared EXACTLY (phase included). No tolerance stated: internal atol 1e-8 x 10 = 1e-7.',
+    'two_qubit_matrix_to_ion_operations': 'docstring: MS + single-qubit rotations implementing the matrix (up to phase); atol = "limit on the amount of error": residual <= atol; at most 3 MS gates (one per interaction coefficient).',
+    'two_qubit_matrix_to_sycamore_operations': 'docstring: only cirq_google.SYC + single-qubit rotations, "may not be optimal" (no count promised: each of <= 3 CZPow costs 2 SYC, bound 6 reported); atol = "limit on absolute error": residual <= atol up to phase.',
+})
+
+
+def is_cz(allow_partial):
+    def f(op):
+        g = op.gate
+        import cirq
+        return isinstance(g, cirq.CZPowGate) and (allow_partial or abs((float(g.exponent) % 2) - 1) < 1e-9) and g.global_shift == 0
+    return f
+
+
+def region_count(xyz, margin=1e-6):
+    """Documented minimal sqrt-iSWAP count of a canonical KAK vector, or None within `margin` of a region boundary."""
+    if xyz is None:
+        return None
+    x, y, z = xyz
+    q = PI4
+    if not (q + 1e-12 >= x >= y >= abs(z)):
+        return None
+    d0 = max(abs(x), abs(y), abs(z))
+    d1 = max(abs(x - q / 2), abs(y - q / 2), abs(z))
+    if d0 < 1e-12:
+        return 0
+    if d1 < 1e-12:
+        return 1
+    if d0 < margin or d1 < margin:
+        return None
+    s = x - y - abs(z)
+    if abs(s) < margin:
+        return None
+    return 2 if s > 0 else 3
+
+
+def synth2q_stream(ctx, cirq, mods, conv, inputs, checks, sub):
+    rng = ctx.rng
+    q = cirq.LineQubit.range(2)
+    cg = mods['cirq_google']
+    fsims = [('FSim(pi/2,pi/6)', cirq.FSimGate(math.pi / 2, math.pi / 6)), ('FSim(pi/2,0)', cirq.FSimGate(math.pi / 2, 0)), ('ISWAP', cirq.ISWAP),
+             ('FSim(3pi/8,pi/4)', cirq.FSimGate(3 * math.pi / 8, math.pi / 4)), ('FSim(5pi/8,-pi/4)', cirq.FSimGate(5 * math.pi / 8, -math.pi / 4)),
+             ('FSim(1.4,0.2)', cirq.FSimGate(1.4, 0.2)), ('FSim(-pi/2,pi/6)', cirq.FSimGate(-math.pi / 2, math.pi / 6))]
+    for k, (name, u, hint) in enumerate(inputs):
+        nt = not name.startswith('identity')
+        special = not name.startswith('random')
+        # ---- CZ ----
+        combos = [(False, True, 1e-8), (True, True, 1e-8)]
+        if k % sub == 0:
+            combos += [(False, False, 1e-8), (True, False, 1e-8), (rng.random() < 0.5, rng.random() < 0.5, rng.choice([1e-6, 1e-10, 1e-5]))]
+        for partial, clean, atol in combos:
+            opts = dict(allow_partial_czs=partial, clean_operations=clean, atol=atol)
+            try:
+                ops = cirq.two_qubit_matrix_to_cz_operations(q[0], q[1], u, allow_partial_czs=partial, atol=atol, clean_operations=clean)
+            except Exception as e:
+                ctx.violation(f'two_qubit_matrix_to_cz_operations:raises:{name}', f'two_qubit_matrix_to_cz_operations({opts}) raised {type(e).__name__}: {e} on {name} '
+                              '(every two-qubit unitary can be written with three full CZs)', dict(kind='synth', routine='two_qubit_matrix_to_cz_operations', opts=opts, input_class=name, matrix=cmat(u)))
+                continue
+            add_ops_checks(ctx, conv, checks, 'two_qubit_matrix_to_cz_operations', opts, name, u, ops, q, atol, True,
+                           (3, False, is_cz(partial), 'at most 3 two-qubit gates, all CZ' + (' powers' if partial else ' (no partial CZ)')), nt)
+        if k % sub == 0 or special and k % 2 == 0:
+            partial = rng.random() < 0.5
+            opts = dict(allow_partial_czs=partial)
+            try:
+                d, ops = cirq.two_qubit_matrix_to_diagonal_and_cz_operations(q[0], q[1], u, allow_partial_czs=partial)
+                ok = True
+            except Exception as e:
+                ok = False
+                ctx.violation(f'two_qubit_matrix_to_diagonal_and_cz_operations:raises:{name}', f'two_qubit_matrix_to_diagonal_and_cz_operations({opts}) raised {type(e).__name__}: {e} on {name}',
+                              dict(kind='synth', routine='two_qubit_matrix_to_diagonal_and_cz_operations', opts=opts, input_class=name, matrix=cmat(u)))
+            if ok:
+                ops = list(ops) + [cirq.MatrixGate(np.asarray(d, dtype=complex)).on(*q)] if False else list(ops)
+                # V = Circuit(ops) @ D: D is applied first
+                allops = [cirq.MatrixGate(np.asarray(d, dtype=complex)).on(*q)] + ops
+                add_ops_checks(ctx, conv, checks, 'two_qubit_matrix_to_diagonal_and_cz_operations', opts, name, u, allops, q, 1e-8, True, None, nt)
+                checks.append(('two_qubit_matrix_to_diagonal_and_cz_operations:form',
+                               f'is_diagonal_f {fl(1e-8)} {gates.fmat(d)} && is_unitary_f {fl(1e-7)} 4 {gates.fmat(d)} && within_count {opdescs(ops, is_cz(partial))} 3',
+                               f'two_qubit_matrix_to_diagonal_and_cz_operations on {name}: D is not a diagonal unitary or more than 3 CZ are used',
+                               dict(kind='synth', routine='two_qubit_matrix_to_diagonal_and_cz_operations', opts=opts, input_class=name, matrix=cmat(u),
+                                    signature=f'two_qubit_matrix_to_diagonal_and_cz_operations:form:{name}')))
+        # ---- sqrt-iSWAP ----
+        combos = [(None, False, False, 1e-8)]
+        if special or k % sub == 0:
+            combos += [(3, False, False, 1e-8), (2, rng.random() < 0.5, rng.random() < 0.5, 1e-8)]
+        if k % sub == 0:
+            combos += [(rng.choice([0, 1]), False, False, 1e-8), (None, True, True, rng.choice([1e-8, 1e-6]))]
+        expected = region_count(hint)
+        for req, inv, clean, atol in combos:
+            opts = dict(required_sqrt_iswap_count=req, use_sqrt_iswap_inv=inv, clean_operations=clean, atol=atol)
+            rep = dict(kind='synth', routine='two_qubit_matrix_to_sqrt_iswap_operations', opts=opts, input_class=name, matrix=cmat(u))
+            try:
+                ops = cirq.two_qubit_matrix_to_sqrt_iswap_operations(q[0], q[1], u, required_sqrt_iswap_count=req, use_sqrt_iswap_inv=inv, atol=atol,
+                                                                     clean_operations=clean)
+            except ValueError as e:
+                # documented only when the matrix needs more than `req` gates
+                ctx.count(f'two_qubit_matrix_to_sqrt_iswap_operations[required={req}]:ValueError', [name, rep['matrix']], nt)
+                if req is None or req >= 3 or (expected is not None and expected <= req):
+                    ctx.violation(f'two_qubit_matrix_to_sqrt_iswap_operations:raises:{name}', f'two_qubit_matrix_to_sqrt_iswap_operations({opts}) raised ValueError({e}) on {name} '
+                                  f'although {expected if expected is not None else "at most 3"} sqrt-iSWAP suffice', rep)
+                continue
+            except Exception as e:
+                ctx.violation(f'two_qubit_matrix_to_sqrt_iswap_operations:raises:{name}', f'two_qubit_matrix_to_sqrt_iswap_operations({opts}) raised {type(e).__name__}: {e} on {name}', rep)
+                continue
+            ex = 0.5 if not inv else -0.5
+            native = lambda op, ex=ex: isinstance(op.gate, cirq.ISwapPowGate) and abs(float(op.gate.exponent) - ex) < 1e-12
+            if req is not None:
+                cnt = (req, True, native, f'exactly required_sqrt_iswap_count={req} sqrt-iSWAP')
+            elif expected is not None:
+                cnt = (expected, True, native, f'the fewest possible number of sqrt-iSWAP, {expected} for KAK coefficients {hint}')
+            else:
+                cnt = (3, False, native, 'at most three sqrt-iSWAP')
+            add_ops_checks(ctx, conv, checks, 'two_qubit_matrix_to_sqrt_iswap_operations', opts, name, u, ops, q, atol, True, cnt, nt)
+        # ---- four FSim ----
+        pick = fsims[:1] + ([rng.choice(fsims[1:])] if (special and k % 2 == 0) or k % sub == 0 else [])
+        for fname, fg in pick:
+            opts = dict(fsim_gate=fname)
+            rep = dict(kind='synth', routine='decompose_two_qubit_interaction_into_four_fsim_gates', opts=opts, input_class=name, matrix=cmat(u))
+            try:
+                circ = cirq.decompose_two_qubit_interaction_into_four_fsim_gates(u, fsim_gate=fg, qubits=q)
+            except Exception as e:
+                ctx.violation(f'decompose_two_qubit_interaction_into_four_fsim_gates:raises:{fname}:{name}',
+                              f'decompose_two_qubit_interaction_into_four_fsim_gates(fsim_gate={fname}) raised {type(e).__name__}: {e} on {name}', rep)
+                continue
+            native = lambda op, fg=fg: op.gate == fg
+            add_ops_checks(ctx, conv, checks, 'decompose_two_qubit_interaction_into_four_fsim_gates', opts, name, u, circ.all_operations(), q, 1e-7, False,
+                           (4, True, native, f'exactly four {fname} gates'), nt, extra=dict(sig_extra=fsim_signature(cirq, fname, u)))
+        # ---- MS ----
+        if special or k % sub == 0:
+            clean = k % 3 != 0
+            opts = dict(clean_operations=clean)
+            try:
+                ops = cirq.two_qubit_matrix_to_ion_operations(q[0], q[1], u, clean_operations=clean)
+                add_ops_checks(ctx, conv, checks, 'two_qubit_matrix_to_ion_operations', opts, name, u, ops, q, 1e-8, True,
+                               (3, False, lambda op: isinstance(op.gate, cirq.XXPowGate), 'at most 3 Molmer-Sorensen gates'), nt)
+            except Exception as e:
+                ctx.violation(f'two_qubit_matrix_to_ion_operations:raises:{name}', f'two_qubit_matrix_to_ion_operations raised {type(e).__name__}: {e} on {name}',
+                              dict(kind='synth', routine='two_qubit_matrix_to_ion_operations', opts=opts, input_class=name, matrix=cmat(u)))
+        # ---- Sycamore ----
+        if (special and k % 2 == 1) or k % sub == 0:
+            clean = k % 4 != 1
+            opts = dict(clean_operations=clean)
+            try:
+                ops = list(cirq.flatten_to_ops(cg.two_qubit_matrix_to_sycamore_operations(q[0], q[1], u, clean_operations=clean)))
+                add_ops_checks(ctx, conv, checks, 'two_qubit_matrix_to_sycamore_operations', opts, name, u, ops, q, 1e-8, True,
+                               (6, False, lambda op: isinstance(op.gate, cg.SycamoreGate), 'only SYC as two-qubit gate (<= 6: two per CZPow)'), nt)
+            except Exception as e:
+                ctx.violation(f'two_qubit_matrix_to_sycamore_operations:raises:{name}', f'two_qubit_matrix_to_sycamore_operations raised {type(e).__name__}: {e} on {name}',
+                              dict(kind='synth', routine='two_qubit_matrix_to_sycamore_operations', opts=opts, input_class=name, matrix=cmat(u)))
+
+
+def fsim_signature(cirq, fname, u):
+    """Input class of a four-FSim failure: which raw KAK coordinates of the input sit within 2e-9 of +-pi/4 (the
+    canonicaliser's atol is 1e-9), as computed by cirq.kak_decomposition of the input itself."""
+    try:
+        k = cirq.kak_decomposition(u)
+        near = [f'{"xyz"[i]}@pi/4{(c - PI4):+.0e}' for i, c in enumerate(k.interaction_coefficients) if abs(abs(c) - PI4) <= 2.5e-9 and abs(abs(c) - PI4) > 1e-12]
+        return fname + ':kak-near-pi/4[' + ','.join(near) + ']' if near else None
+    except Exception:
+        return None
+
+
+# =====================================================================================================
 def evaluate(ctx, checks):
     SH = 60
     shards = []
